@@ -1,24 +1,159 @@
 (* The single extracted entry point: one S-expression in, one string out.  Definitions only. *)
-From Verif Require Import Base Tokens Scanner Parser Lazy Algebra.
+From Verif Require Import Base Tokens Scanner Parser Lazy Algebra Coding Contrasts Frame Eval Design.
+Local Close Scope Qc_scope.
+Local Close Scope Q_scope.
 Local Open Scope string_scope.
 
 Definition parse_string (s : string) : res expr := do ts <- scan s; parse ts.
 Definition describe_string (s : string) : res model := do e <- parse_string s; describe e.
 
-Definition run_cmd (cmd : string) (args : list sexp) : sexp :=
-  match cmd, args with
-  | "scan", [SAtom s] => res_sexp (fun ts => L (map tok_sexp ts)) (scan s)
-  | "parse", [SAtom s] => res_sexp expr_sexp (parse_string s)
-  | "describe", [SAtom s] =>
-      res_sexp (fun x => x) (do m <- describe_string s; model_obs m)
-  | "c01", [SAtom s] =>
-      L [res_sexp expr_sexp (parse_string s);
-         res_sexp (fun x => x) (do m <- describe_string s; model_obs m)]
-  | _, _ => L [A "bad-command"; A cmd]
+(* ---- decoding frames ---- *)
+Definition dec_cell (x : sexp) : option cell :=
+  match x with
+  | SAtom "nan" => Some None
+  | SAtom s => match qread s with Some q => Some (Some q) | None => None end
+  | _ => None
   end.
 
-Definition run (x : sexp) : string :=
-  match x with
-  | SList (SAtom cmd :: args) => sshow (run_cmd cmd args)
-  | _ => sshow (L [A "bad-input"])
+Definition dec_ostr (x : sexp) : option string :=
+  match x with SAtom s => Some s | SList _ => None end.
+
+Fixpoint all_opt {T} (l : list (option T)) : option (list T) :=
+  match l with
+  | [] => Some []
+  | Some x :: r => match all_opt r with Some r' => Some (x :: r') | None => None end
+  | None :: _ => None
   end.
+
+Definition dec_atoms (l : list sexp) : list string :=
+  flat_map (fun x => match x with SAtom s => [s] | _ => [] end) l.
+
+Definition dec_column (x : sexp) : option column :=
+  match x with
+  | SList [SAtom "num"; SAtom isint; SList cells] =>
+      match all_opt (map dec_cell cells) with
+      | Some cs => Some (ColNum (String.eqb isint "int") cs)
+      | None => None
+      end
+  | SList [SAtom "str"; SList cats; SList vals] =>
+      Some (ColStr (match cats with [] => None | _ => Some (dec_atoms cats) end) (map dec_ostr vals))
+  | _ => None
+  end.
+
+Definition dec_frame (x : sexp) : option frame :=
+  match x with
+  | SList cols =>
+      all_opt (map (fun c => match c with
+                             | SList [SAtom name; col] =>
+                                 match dec_column col with Some cc => Some (name, cc) | None => None end
+                             | _ => None end) cols)
+  | _ => None
+  end.
+
+Definition dec_extra (x : sexp) : list (string * pyval) :=
+  match x with
+  | SList l =>
+      flat_map (fun e => match e with
+                         | SList [SAtom n; SList (SAtom "strlist" :: vs)] => [(n, PStrList (dec_atoms vs))]
+                         | SList [SAtom n; SList [SAtom "int"; SAtom v]] =>
+                             match qread v with Some q => [(n, PNumber true q)] | None => [] end
+                         | SList [SAtom n; SList [SAtom "str"; SAtom v]] => [(n, PStr v)]
+                         | SList [SAtom n; SList [SAtom "opaque"]] => [(n, PBoolean true)]
+                         | _ => [] end) l
+  | _ => []
+  end.
+
+Definition dec_na (s : string) : option na_action :=
+  if String.eqb s "drop" then Some NaDrop else if String.eqb s "error" then Some NaError
+  else if String.eqb s "pass" then Some NaPass else None.
+
+Definition dec_mode (s : string) : unseen_mode :=
+  if String.eqb s "warning" then UWarning else if String.eqb s "silent" then USilent else UError.
+
+(* ---- printing designs ---- *)
+Definition rows_sexp (rows : list (list cell)) : sexp :=
+  L (map (fun r => L (map (fun c => A (cshow c)) r)) rows).
+Definition strs_sexp (l : list string) : sexp := L (map A l).
+Definition ostrs_sexp (l : option (list string)) : sexp :=
+  match l with Some x => L [A "some"; strs_sexp x] | None => L [] end.
+
+Definition dterm_levels (t : dterm) : option (list string) :=
+  (* Term.levels of a single-component term *)
+  match dt_comps t with
+  | [d] => match dc_contrast d with Some c => Some (clabels c) | None => None end
+  | _ => None
+  end.
+
+Definition dterm_sexp (t : dterm) : sexp :=
+  L [A (dt_name t); A (dt_kind t); ostrs_sexp (dt_labels t); rows_sexp (dt_rows t);
+     ostrs_sexp (dterm_levels t)].
+
+Definition dgterm_sexp (g : dgterm) : sexp :=
+  L [A (dg_name g); A (dg_kind g); strs_sexp (dg_groups g); strs_sexp (dg_labels g);
+     rows_sexp (dg_rows g)].
+
+Definition design_sexp (d : design) : sexp :=
+  L [match ds_response d with Some t => dterm_sexp t | None => L [] end;
+     L (map dterm_sexp (ds_common d));
+     L (map dgterm_sexp (ds_group d))].
+
+Definition bool_sexp (b : bool) : sexp := A (if b then "true" else "false").
+
+Definition newres_sexp (r : newres) : sexp := L [rows_sexp (nr_rows r); bool_sexp (nr_warned r)].
+Definition newgroup_sexp (r : newgroup) : sexp :=
+  L [rows_sexp (ng_rows r);
+     L (map (fun s => L [A (fst (fst s)); AN (snd (fst s)); AN (snd s)]) (ng_slices r));
+     strs_sexp (ng_new_factors r); bool_sexp (ng_warned r)].
+
+Section Run.
+  Variable ksqrt : Qc -> Qc.
+
+  Definition build_design (formula : string) (fr na extra : sexp) : res design :=
+    do e <- parse_string formula;
+    match dec_frame fr, na with
+    | Some f, SAtom nas =>
+        match dec_na nas with
+        | Some n => design_matrices (DCtx (dec_extra extra) ksqrt) e f n
+        | None => Err EValue
+        end
+    | _, _ => Err EAssert
+    end.
+
+  Definition run_cmd (cmd : string) (args : list sexp) : sexp :=
+    match cmd, args with
+    | "scan", [SAtom s] => res_sexp (fun ts => L (map tok_sexp ts)) (scan s)
+    | "parse", [SAtom s] => res_sexp expr_sexp (parse_string s)
+    | "describe", [SAtom s] =>
+        res_sexp (fun x => x) (do m <- describe_string s; model_obs m)
+    | "c01", [SAtom s] =>
+        L [res_sexp expr_sexp (parse_string s);
+           res_sexp (fun x => x) (do m <- describe_string s; model_obs m)]
+    | "design", [SAtom formula; fr; na; extra] =>
+        res_sexp design_sexp (build_design formula fr na extra)
+    | "newdata", [SAtom formula; fr; na; extra; SAtom mode; SList news] =>
+        match build_design formula fr na extra with
+        | Err k => L [A "err"; A (errshow k)]
+        | Ok d =>
+            let cx := DCtx (dec_extra extra) ksqrt in
+            L [A "ok"; design_sexp d;
+               L (map (fun nf =>
+                         match dec_frame nf with
+                         | None => L [A "bad-frame"]
+                         | Some f =>
+                             L [match ds_common d with
+                                | [] => L [A "none"]
+                                | _ => res_sexp newres_sexp (new_common cx (dec_mode mode) d f) end;
+                                match ds_group d with
+                                | [] => L [A "none"]
+                                | _ => res_sexp newgroup_sexp (new_group cx (dec_mode mode) d f) end]
+                         end) news)]
+        end
+    | _, _ => L [A "bad-command"; A cmd]
+    end.
+
+  Definition run (x : sexp) : string :=
+    match x with
+    | SList (SAtom cmd :: args) => sshow (run_cmd cmd args)
+    | _ => sshow (L [A "bad-input"])
+    end.
+End Run.
